@@ -49,9 +49,11 @@ type resolverContext struct {
 	// This structure is privately instantiated and needs not be locked against
 	// concurrent access, unless we chose to implement a parallel spec walking.
 	circulars map[string]bool
-	basePath  string
-	loadDoc   func(string) (json.RawMessage, error)
-	rootID    string
+	// idBases remembers, for every base path derived from a schema id, the id it was derived from.
+	idBases  map[string]string
+	basePath string
+	loadDoc  func(string) (json.RawMessage, error)
+	rootID   string
 }
 
 func newResolverContext(options *ExpandOptions) *resolverContext {
@@ -67,6 +69,7 @@ func newResolverContext(options *ExpandOptions) *resolverContext {
 
 	return &resolverContext{
 		circulars: make(map[string]bool),
+		idBases:   make(map[string]string),
 		basePath:  expandOptions.RelativeBase, // keep the root base path in context
 		loadDoc:   loader,
 	}
@@ -293,10 +296,17 @@ func (r *schemaLoader) setSchemaID(target interface{}, id, basePath string) (str
 		refPath = id
 	}
 
+	if r.context.idBases[basePath] == id {
+		// the schema has been reached again through a $ref to the location its own id stands for:
+		// this id has already been taken into account in the current base, don't apply it twice
+		return basePath, refPath
+	}
+
 	// updates the current base path
 	// * important: ID can be a relative path
 	// * registers target to be fetchable from the new base proposed by this id
 	newBasePath := normalizeURI(refPath, basePath)
+	r.context.idBases[newBasePath] = id
 
 	// store found IDs for possible future reuse in $ref
 	r.cache.Set(newBasePath, target)
